@@ -313,14 +313,29 @@ def r2_5(ctx, rc):
             var = items[0].optional_vars
             # the builder that runs the build was given this object
             ok = False
+            # names the managed object flows into inside the caller (a
+            # context tuple / object built from it)
+            flow = {var.id} if isinstance(var, ast.Name) else set()
+            grew = True
+            while grew:
+                grew = False
+                for st in ast.walk(caller.node):
+                    if isinstance(st, ast.Assign) and any(
+                            isinstance(x, ast.Name) and x.id in flow
+                            for x in ast.walk(st.value)):
+                        for t in st.targets:
+                            if isinstance(t, ast.Name) and t.id not in flow:
+                                flow.add(t.id)
+                                grew = True
             for c2 in prog.calls_in(caller):
                 for g in prog.resolve_call(c2, caller):
                     if isinstance(g, Func) and g.is_ctor_call and \
                             g.cls_for_ctor == ctx.R.builder:
                         b = prog.bind_args(c2, g)
                         for p, a in b.items():
-                            if isinstance(a, ast.Name) and isinstance(
-                                    var, ast.Name) and a.id == var.id:
+                            if isinstance(a, ast.AST) and any(
+                                    isinstance(x, ast.Name) and x.id in flow
+                                    for x in ast.walk(a)):
                                 ok = True
             if ok:
                 rc.ok({'with': key}, key=key)
@@ -635,13 +650,10 @@ def r2_10(ctx, rc):
                      '(an existing file that the build overwrites cannot be '
                      'restored by rollback)', bf.file, key='backup guard')
         return
-    bfacts = None
-    for path, facts in Q.enumerate_paths(
-            sgb, sgb.entry, lambda x: x.id == bsites[0].id):
-        s = {(f[0], ast.dump(ctx.H.subst(f[1], f[2], f[3]))): f
-             for f in facts}
-        bfacts = s if bfacts is None else {
-            k: v for k, v in bfacts.items() if k in s}
+    # the conditions of the backup: the branch facts the site is control-
+    # dependent on (independent of how the protocol is split into helpers)
+    bfacts = {(f[0], ast.dump(ctx.H.subst(f[1], f[2], f[3]))): f
+              for f in Q.control_facts(sgb, bsites[0].id)}
     rb = N['rollback']
     sgr = ctx.helpers_graph(rb, stop=(N['remover'].qualname,
                                       N['dir_remover'].qualname,
@@ -649,13 +661,8 @@ def r2_10(ctx, rc):
     rsites = [x for x in sgr.nodes if Q.is_call(x, N['remover'].qualname)]
     if not rsites:
         raise AnalysisError('file remover not found in rollback')
-    rfacts = None
-    for path, facts in Q.enumerate_paths(
-            sgr, sgr.entry, lambda x: x.id == rsites[0].id):
-        s = {(f[0], ast.dump(ctx.H.subst(f[1], f[2], f[3]))): f
-             for f in facts}
-        rfacts = s if rfacts is None else {
-            k: v for k, v in rfacts.items() if k in s}
+    rfacts = {(f[0], ast.dump(ctx.H.subst(f[1], f[2], f[3]))): f
+              for f in Q.control_facts(sgr, rsites[0].id)}
 
     def classify(f):
         pol, atom, func, cn = f
@@ -692,12 +699,12 @@ def r2_10(ctx, rc):
                             return False
                 return True
         return False
-    b = [classify(f) for f in (bfacts or {}).values()
-         if not (classify(f)[0].startswith('OTHER') and
-                 is_validation(sgb, f, bsites[0]))]
-    r = [classify(f) for f in (rfacts or {}).values()
-         if not (classify(f)[0].startswith('OTHER') and
-                 is_validation(sgr, f, rsites[0]))]
+    b = sorted({classify(f) for f in (bfacts or {}).values()
+                if not (classify(f)[0].startswith('OTHER') and
+                        is_validation(sgb, f, bsites[0]))})
+    r = sorted({classify(f) for f in (rfacts or {}).values()
+                if not (classify(f)[0].startswith('OTHER') and
+                        is_validation(sgr, f, rsites[0]))})
     b = [x for x in b if x[0] != 'REUSED']
     key = 'backup guard'
     if [x for x in b if x[0].startswith('OTHER')] or \
